@@ -178,12 +178,35 @@ def draw(r, as_path):
         return t
 
 
+def with_dtype(r, t):
+    """weights of another dtype than float64 (float32, int64): the sum must still be the exact sum of the stored
+    values for every n_jobs — in a third of these cases with magnitudes whose float32 sum would round (1e8 + 1 - 1e8)"""
+    if t['kind'] != 'matrix':
+        return t
+    t['dtype'] = r.choice(['float32', 'float32', 'int64'])
+    n = len(t['outcomes']) * len(t['cues'])
+    if t['dtype'] == 'int64':
+        t['vals'] = ['%d/1' % r.randint(-16, 16) for _ in range(n)]
+    elif r.random() < 0.6:
+        t['vals'] = [r.choice(['100000000/1', '-100000000/1', '1/1', '3/8', '-1/1', '0/1', '16777216/1', '-16777216/1'])
+                     for _ in range(n)]
+        # every cue in the events, so that large and small magnitudes meet in one sum
+        t['events'] = [list(t['cues']) for _ in range(max(1, len(t['events'])))]
+        t['policy'] = 'keep'
+        if t.get('as_path'):
+            t['file_outcomes'] = [[] for _ in t['events']]
+            t['freq'] = None
+    return t
+
+
 def run(rep, pool, driver, tier):
     r = rng('C12')
     quick = tier == 'quick'
     tasks = [draw(r, False) for i in range(120 if quick else 1500)]
     rp = rng('C12/path')
     tasks += [draw(rp, True) for i in range(70 if quick else 900)]
+    rd = rng('C12/dtype')
+    tasks += [with_dtype(rd, draw(rd, i % 3 == 0)) for i in range(40 if quick else 400)]
     impls = pool.map(tasks)
     models = driver.ask([model_request(t) for t in tasks])
     ro = rng('C12/mp_order')
@@ -213,6 +236,7 @@ def run(rep, pool, driver, tier):
         if t['kind'] == 'matrix':
             rep.count('n_jobs:%d' % t['n_jobs'])
             rep.count('layout:' + t['layout'])
+            rep.count('dtype:' + t.get('dtype', 'float64'))
             rep.count('ignore_missing:%s' % t['ignore_missing'])
         rep.count('events_as:%s' % ('path' if t.get('as_path') else 'generator' if t['kind'] == 'matrix' and t.get('as_generator') else 'list'))
         if t.get('as_path'):
